@@ -35,7 +35,7 @@ ASSUMPTIONS = [
 TIME_CAP = {"quick": 60, "thorough": 600}
 
 NAMES = ["None", "plain", "my project, v2!", "name with 'quotes' # and = sign"]
-WSDIRS = ["absent", "workspace", "ws_custom", "data/ws", "collide"]
+WSDIRS = ["absent", "workspace", "ws_custom", "data/ws", "collide", "collide_empty"]
 VERSIONS = ["absent", "0", "1", "3", "10"]
 
 
@@ -90,6 +90,8 @@ def build(ctx, case):
         else:
             cfg["schema_version"] = case["ver"]
         cfg.write()
+        if case["njobs"] == 0:
+            shutil.rmtree(os.path.join(root, "workspace"))  # a refused project must not get one created either
         return root, want, pdoc
     # legacy layout
     cache = os.path.join(root, model.CACHE_FILE)
@@ -101,14 +103,15 @@ def build(ctx, case):
             f.write("project.find_jobs()\n")
     ws = case["ws"]
     wsname = {"absent": None, "workspace": "workspace", "ws_custom": "ws_custom", "data/ws": "data/ws",
-              "collide": "ws_custom"}[ws]
+              "collide": "ws_custom", "collide_empty": "ws_custom"}[ws]
     if wsname not in (None, "workspace"):
         os.makedirs(os.path.dirname(os.path.join(root, wsname)) or root, exist_ok=True)
         os.replace(os.path.join(root, "workspace"), os.path.join(root, wsname))
-        if ws == "collide":
+        if ws.startswith("collide"):
             os.makedirs(os.path.join(root, "workspace"))
-            with open(os.path.join(root, "workspace", "something.txt"), "w") as f:
-                f.write("in the way")
+            if ws == "collide":
+                with open(os.path.join(root, "workspace", "something.txt"), "w") as f:
+                    f.write("in the way")
     cfg = ConfigObj()
     cfg.filename = os.path.join(root, "signac.rc")
     cfg["project"] = case["name"]
@@ -208,7 +211,7 @@ def run_case(ctx, case):
             ctx.violation("migration-of-newer-schema-not-refused", "apply_migrations on a newer schema did not refuse cleanly",
                           {"err": repr(merr), "diff": model.snap_diff(before, after)})
         return
-    if case["ws"] == "collide":
+    if case["ws"].startswith("collide"):
         ctx.monitor("migration_refusal_unchanged")
         b = {k: v for k, v in before.items() if k != "signac.rc"}
         a = {k: v for k, v in after.items() if k != "signac.rc"}
